@@ -50,6 +50,7 @@ structure Mon where
   issuedAt : List (ReqId × Nat) := []
   known    : List ConnId := []               -- connections that have been handed out before
   pend     : List ReqId := []                -- requests whose last poll was `Pending`
+  failed   : List ConnId := []               -- released connections whose readiness poll answered with an error
   connKey  : List (ConnId × KeyId) := []     -- the origin a connection was dialled for (reported when it is handed out)
   marks    : Nat := 0                        -- `mark` ops seen (2 = every attempt resolved and every
                                              --   request polled since: nobody may still be pending)
@@ -66,6 +67,8 @@ def monStep (cfg : Config) (m : Mon) (op : Op) (o : IObs) : Mon × Option String
     decide ((idleConns.filter fun c => m.connKey.lookup c == some k).length > cfg.maxIdle)
   let over := (o.idle.any fun (_, l) => decide (l.length > cfg.maxIdle)) || perOrigin
   let v15 : Option String := if over then some "C15/idle-over-limit" else none
+  -- C02: a connection that answered its readiness poll with an error never reported ready: it may not be back in the pool
+  let v15 : Option String := if idleConns.any m.failed.contains then some "C02/failed-connection-returned-to-pool" else v15
   match op with
   | .issue r k _ => ({ m1 with keyOf := (r, k) :: m.keyOf, issuedAt := (r, m.idx) :: m.issuedAt }, v15)
   | .poll r =>
@@ -78,6 +81,7 @@ def monStep (cfg : Config) (m : Mon) (op : Op) (o : IObs) : Mon × Option String
       let v : Option String :=
         if !o.isH2 && m.holders.any (fun h => h.2 == c) then some "C02/double-use"
         else if !o.isH2 && m.busy.contains c then some "C02/busy-handout"
+        else if m.failed.contains c then some "C02/failed-connection-handed-out"
         else if (match o.origin, m.keyOf.lookup r with | some a, some b => a != b | _, _ => false) then some "C06/cross-origin"
         else if (match m.closed.lookup c, m.issuedAt.lookup r with
                  | some ci, some ri => m.known.contains c && decide (ci < ri) | _, _ => false) then some "C05/closed-handout"
@@ -94,6 +98,7 @@ def monStep (cfg : Config) (m : Mon) (op : Op) (o : IObs) : Mon × Option String
                             pend := m.pend.filter (· != r) }, v15)
   | .connReady c => ({ m1 with busy := if o.res == .done then m.busy.filter (· != c) else m.busy }, v15)
   | .connClose c => ({ m1 with closed := if (m.closed.lookup c).isSome || o.res != .done then m.closed else (c, m.idx) :: m.closed }, v15)
+  | .connFail c => ({ m1 with failed := if o.res == .done then c :: m.failed else m.failed }, v15)
   | .mark => ({ m1 with marks := m.marks + 1 }, v15)
   | _ => (m1, v15)
 
@@ -161,7 +166,12 @@ def classify (s : State) (drain : Bool) (op : Op) (mo : IObs) (io : IObs) : Opti
       then some "C05/closed-connection-passed-on"
     -- idle/waiting bookkeeping differs
     else if mo.idle != io.idle && (io.idle.map (fun p => p.2.length)).sum < (mo.idle.map (fun p => p.2.length)).sum
-      then some "C14/connection-not-returned"
+      then
+        -- … and if the connection that is missing is one that can be shared, later requests cannot share it (C04)
+        let have_ := io.idle.flatMap (·.2)
+        let missing := (mo.idle.flatMap (·.2)).filter fun c => !have_.contains c
+        if missing.any (canShare s') then some "C14/connection-not-returned,C04/shared-connection-unavailable"
+        else some "C14/connection-not-returned"
     else none
 
 end Hd.Pool
